@@ -30,12 +30,20 @@ def analyse(prop: str, repo_root: str, tier: str):
     typer = Typer(repo, schema)
     ctx = Ctx(prop, repo, typer, schema, tier, dict(mod.RULES))
     mod.run(ctx)
+    # instance floors: a rule that examined too few instances would pass vacuously. A floor shortfall is an
+    # ANALYSIS-ERROR unless the run already found violations (then those are the report).
+    ctx.floor_errors = []
     floors = getattr(mod, "FLOORS", {})
     for rule, minimum in floors.items():
-        ctx.floor(rule, minimum)
+        try:
+            ctx.floor(rule, minimum)
+        except AnalysisError as e:
+            ctx.floor_errors.append(str(e))
     for rule in mod.RULES:
         if ctx.counts.get(rule, 0) == 0:
-            raise AnalysisError(f"{prop}-{rule}: no instance examined (rule would pass vacuously)")
+            ctx.floor_errors.append(f"{prop}-{rule}: no instance examined (rule would pass vacuously)")
+    if ctx.floor_errors and not ctx.findings:
+        raise AnalysisError("; ".join(ctx.floor_errors))
     return ctx, mod
 
 
@@ -93,6 +101,12 @@ def main(argv=None) -> int:
             print(f"KNOWN-FINDING: property={prop} {f.rule} {f.symbol} {f.construct} — {k.get('why', f.detail)}")
         else:
             new.append(f)
+    if ctx.floor_errors and not new:
+        # only known findings were seen and some rule fell below its floor: cannot vouch for the rest
+        print(f"ANALYSIS-ERROR property={prop} " + "; ".join(ctx.floor_errors))
+        return 2
+    for fe in ctx.floor_errors:
+        print(f"  note: {fe}")
     wall = time.time() - t0
     if not args.no_evidence and os.path.realpath(args.repo) == os.path.realpath("/repo"):
         write_evidence(ctx, mod, wall, seed, len(new), n_known, extra)
